@@ -383,6 +383,76 @@ pub fn run_c12(a: &Args, rep: &mut Report) {
             sres += a.nshards as usize;
         }
         flush(rep, &mut cases);
+        // the same residue sweep for programs that contain what a sizing pass may treat specially:
+        // local call sites (1-4; the frame adjustment is an instruction with an immediate), helper
+        // calls, division by a register, conditional jumps, wide loads, packet loads
+        let mut sres = a.shard as usize;
+        let mut fi = 0usize;
+        while sres < 4096 && !par_only && !cfg!(miri) {
+            for feature in 0..6usize {
+                let total = 4200 + sres;
+                let b = (0..3).find(|b| (total - 4 * b) % 3 == 0).unwrap();
+                let na = (total - 4 * b) / 3;
+                let mut v: Vec<Insn> = Vec::with_capacity(na + b + 16);
+                v.push(Insn::new(MOV64_IMM, 0, 0, 0, 1));
+                v.push(Insn::new(MOV64_IMM, 6, 0, 0, 3));
+                let ncalls = 1 + (sres / 16 + fi) % 4;
+                let mut call_sites: Vec<usize> = Vec::new();
+                match feature {
+                    0 => {
+                        for _ in 0..ncalls {
+                            call_sites.push(v.len());
+                            v.push(Insn::new(CALL, 0, 1, 0, 0)); // patched below
+                        }
+                    }
+                    1 => v.push(Insn::new(CALL, 0, 0, 0, 1)),
+                    2 => v.push(Insn::new(0x3f, 0, 6, 0, 0)), // div64 r0, r6
+                    3 => v.push(Insn::new(JEQ_IMM, 0, 0, 1, 77)),
+                    4 => {
+                        v.push(Insn::new(LDDW, 7, 0, 0, -1));
+                        v.push(Insn::new(0, 0, 0, 0, 0x1234));
+                    }
+                    _ => v.push(Insn::new(0x30, 0, 0, 0, 0)), // ldabsb 0
+                }
+                for _ in 0..na {
+                    v.push(Insn::new(MOV64_REG, 8, 0, 0, 0)); // 3 bytes of x86
+                }
+                for _ in 0..b {
+                    v.push(Insn::new(0xc7, 7, 0, 0, 1)); // 4 bytes
+                }
+                v.push(Insn::new(EXIT, 0, 0, 0, 0));
+                let callee = v.len();
+                if !call_sites.is_empty() {
+                    v.push(Insn::new(MOV64_IMM, 0, 0, 0, 2));
+                    v.push(Insn::new(EXIT, 0, 0, 0, 0));
+                    for cs in call_sites {
+                        v[cs].imm = (callee as i64 - (cs as i64 + 1)) as i32;
+                    }
+                }
+                let kind = if feature == 5 { Kind::Raw } else { crate::engines::KINDS[(sres / a.nshards as usize + a.seed as usize + feature) % 4] };
+                let mut c = Case::new(kind, encode_prog(&v), "size-residue-sweep");
+                if kind != Kind::NoData {
+                    c.pkt = vec![1, 2, 3, 4, 5, 6, 7, 8];
+                }
+                if kind == Kind::Mbuff {
+                    c.mbuff = vec![0; 16];
+                }
+                if feature == 1 {
+                    c.helpers = vec![(1, 0)];
+                }
+                if feature == 0 && fi % 3 == 1 {
+                    c.calc = genp::CalcSpec::Const([8u16, 64, 120, 128, 136, 512][fi / 3 % 6]);
+                }
+                fi += 1;
+                rep.count("size_residue_programs_with_calls_div_jumps");
+                cases.push((c, "size-residue-sweep"));
+                if cases.len() >= 32 {
+                    flush(rep, &mut cases);
+                }
+            }
+            sres += a.nshards as usize;
+        }
+        flush(rep, &mut cases);
         rep.set("size_sweep", format!("straight-line programs of 1..={max_n} instructions + one program per residue of the JIT code size modulo 4096 (sliced over shards)"));
     }
     // opcode-dense programs: N copies of one opcode with the register choices that give the longest
